@@ -46,7 +46,44 @@ class DetNames(object):
         return "n%03d" % self.n
 
 
-def _install_fs_hooks(shared, point):
+class _TornWriter(object):
+    """Proxy for a file opened for writing inside the shared directory: its FIRST write is split in two
+    halves with a scheduling point in between, so that a concurrent reader of the same path can observe
+    a partially written file (write(2) is not atomic for readers).  With unique, exclusively created
+    names nobody else reads the file and the split is unobservable."""
+
+    def __init__(self, real, point, name):
+        self.__dict__.update(_real=real, _point=point, _name=name, _first=True)
+
+    def write(self, data):
+        if self._first and len(data) >= 2:
+            self.__dict__["_first"] = False
+            half = len(data) // 2
+            n = self._real.write(data[:half])
+            self._real.flush()
+            self._point("write:second-half", self._name)
+            return n + self._real.write(data[half:])
+        self.__dict__["_first"] = False
+        return self._real.write(data)
+
+    def __getattr__(self, k):
+        return getattr(self._real, k)
+
+    def __setattr__(self, k, v):
+        setattr(self._real, k, v)
+
+    def __enter__(self):
+        self._real.__enter__()
+        return self
+
+    def __exit__(self, *a):
+        return self._real.__exit__(*a)
+
+    def __iter__(self):
+        return iter(self._real)
+
+
+def _install_fs_hooks(shared, point, torn_writes=False):
     shared = os.path.abspath(shared) + os.sep
 
     def inside(p):
@@ -73,6 +110,8 @@ def _install_fs_hooks(shared, point):
     def hooked_open(file, mode="r", *a, **k):
         if inside(file):
             point("open:" + mode, base(file))
+            if torn_writes and any(c in mode for c in "wax+"):
+                return _TornWriter(real_open(file, mode, *a, **k), point, base(file))
         return real_open(file, mode, *a, **k)
 
     builtins.open = hooked_open
@@ -189,7 +228,7 @@ class Child(object):
             pass
 
 
-def spawn(idx, fn, shared, sqlite_points=False):
+def spawn(idx, fn, shared, sqlite_points=False, torn_writes=False):
     c2p_r, c2p_w = os.pipe()
     p2c_r, p2c_w = os.pipe()
     pid = os.fork()
@@ -207,7 +246,7 @@ def spawn(idx, fn, shared, sqlite_points=False):
 
             tempfile.tempdir = shared
             tempfile._name_sequence = DetNames()
-            _install_fs_hooks(shared, point)
+            _install_fs_hooks(shared, point, torn_writes)
             if sqlite_points:
                 _install_sqlite_hooks(point)
             try:
@@ -227,14 +266,14 @@ def spawn(idx, fn, shared, sqlite_points=False):
     return Child(idx, pid, c2p_r, p2c_w)
 
 
-def run_schedule(ch, fns, shared, sqlite_points=False):
+def run_schedule(ch, fns, shared, sqlite_points=False, torn_writes=False):
     """Run one complete controlled execution; `ch` decides who moves at every step.
 
     Returns (children, schedule, stats)."""
     children = []
     try:
         for i, fn in enumerate(fns):
-            c = spawn(i, fn, shared, sqlite_points)
+            c = spawn(i, fn, shared, sqlite_points, torn_writes)
             children.append(c)
             c.recv()                     # runs alone until its first point (or exit)
         schedule = []
